@@ -288,16 +288,22 @@ impl LocalNode {
     ///
     /// Returns the generation (with tag).
     pub(crate) fn new_helping(&self, ptr: usize) -> usize {
-        let node = &self.node.get().expect("LocalNode::with ensures it is set");
+        let mut node = self.node.get().expect("LocalNode::with ensures it is set");
         debug_assert_eq!(node.in_use.load(Relaxed), NODE_USED);
-        let (gen, discard) = node.helping.get_debt(ptr, &self.helping);
-        if discard {
+        if self.helping.wraps_next() {
             // Too many generations happened, make sure the writers give the poor node a break for
             // a while so they don't observe the generation wrapping around.
+            //
+            // We must not give the node up in the middle of the transaction (the confirmation
+            // still needs it), so we move to another node (possibly the same one, once no writer
+            // is inside) *before* the transaction with the wrapped generation starts ‒ exactly as
+            // if this thread terminated and a new one started.
             verif_step!(HELPING_WRAP);
             node.start_cooldown();
-            self.node.take();
+            node = Node::get();
+            self.node.set(Some(node));
         }
+        let (gen, _) = node.helping.get_debt(ptr, &self.helping);
         gen
     }
 
@@ -332,6 +338,10 @@ impl LocalNode {
     {
         let node = &self.node.get().expect("LocalNode::with ensures it is set");
         debug_assert_eq!(node.in_use.load(Relaxed), NODE_USED);
+        // The replacement is produced by a nested load on this thread. Should that load wrap the
+        // generation, it moves the thread to another node; keep our node from being handed to
+        // someone else while we still work with its handover space.
+        let _own = node.reserve_writer();
         node.helping.help(&who.helping, storage_addr, replacement)
     }
 }
